@@ -246,16 +246,21 @@ func (c *connectClient) NewConn(
 	spec Spec,
 	header http.Header,
 ) StreamingClientConn {
-	if deadline, ok := ctx.Deadline(); ok {
-		millis := int64(time.Until(deadline) / time.Millisecond)
-		if millis > 0 {
-			encoded := strconv.FormatInt(millis, 10 /* base */)
-			if len(encoded) <= 10 {
-				header[connectHeaderTimeout] = []string{encoded}
-			} // else effectively unbounded
+	duplexCall := newDuplexHTTPCall(ctx, c.HTTPClient, c.URL, spec, header)
+	// The timeout the peer is told is the time remaining when the request is
+	// sent. For streams that is the first Send or CloseRequest, which may come
+	// long after the call was created.
+	duplexCall.onRequestSend = func(header http.Header) {
+		if deadline, ok := ctx.Deadline(); ok {
+			millis := int64(time.Until(deadline) / time.Millisecond)
+			if millis > 0 {
+				encoded := strconv.FormatInt(millis, 10 /* base */)
+				if len(encoded) <= 10 {
+					header[connectHeaderTimeout] = []string{encoded}
+				} // else effectively unbounded
+			}
 		}
 	}
-	duplexCall := newDuplexHTTPCall(ctx, c.HTTPClient, c.URL, spec, header)
 	var conn StreamingClientConn
 	if spec.StreamType == StreamTypeUnary {
 		unaryConn := &connectUnaryClientConn{
